@@ -83,7 +83,7 @@ func (ref Reference) ReferenceTargets(ctx context.Context, _ *TargetContext) ref
 		if diags.HasErrors() {
 			return reference.Targets{}
 		}
-		if val.Type() != cty.String {
+		if val.IsNull() || !val.IsKnown() || val.Type() != cty.String {
 			return reference.Targets{}
 		}
 		startPos := hcl.Pos{
